@@ -393,6 +393,15 @@ class Gen:
             e = ctx.select(self.b(depth - 1), self.f(depth - 1), self.f(depth - 1))
         elif k == "updown":
             a = self.f(depth - 1)
+            if rnd.random() < 0.35:
+                # a single cast directly over a constant (named constants and literals that are not representable in the narrower type)
+                a = ctx.constant(rnd.choice(["eps", "largest", "smallest", "pi", "smallest_subnormal", 0.1, 1 / 3, 1.5, 2]), rnd.choice(self.syms))
+                try:
+                    e = ctx.upcast(a) if rnd.random() < 0.6 else ctx.downcast(a)
+                    self.pool_f.append(e)
+                    return e
+                except Exception:
+                    pass
             try:
                 e = ctx.upcast(ctx.downcast(a)) if rnd.random() < 0.5 else ctx.downcast(ctx.upcast(a))
             except Exception:
